@@ -1,5 +1,8 @@
 //! C16 probe: every list of irrefutable parameter patterns gives a usable generated method that
 //! forwards positionally (compiled and run: results through the trait equal direct calls).
+//! Results through the trait are compared with direct calls for every pattern shape, so it is a probe of C01's
+//! "the caller's arguments in declared order" as well.
+//! ALSO: C01
 #![allow(unused_variables, unused_mut, non_snake_case)]
 use entrait::*;
 pub struct P(pub i64, pub i64);
